@@ -301,6 +301,9 @@ Definition arrow_view (g : geom) (ww wh : Z) (d : dir) (v : view) : vres :=
     end
   end.
 
+(* i32::clamp(1, LAST_ROW) *)
+Definition clamp_row (x : Z) : Z := if x <? 1 then 1 else if LAST_ROW <? x then LAST_ROW else x.
+
 Definition page_down_view (g : geom) (wh : Z) (v : view) : vres :=
   match row_height g (v_top v) with
   | Ok h0 =>
@@ -308,7 +311,7 @@ Definition page_down_view (g : geom) (wh : Z) (v : view) : vres :=
     | LFuel => VFuel | LErr => VErr v
     | LDone last =>
       if negb (valid_row last) then VOk v else
-      let r := last + (v_row v - v_top v) in
+      let r := clamp_row (last + (v_row v - v_top v)) in
       VOk (single v r (v_col v) last (v_left v))
     end
   | _ => VErr v
@@ -320,7 +323,7 @@ Definition page_up_view (g : geom) (wh : Z) (v : view) : vres :=
     match grow_up (row_height g) wh (fuel_down (v_top v)) (v_top v) h0 with
     | LFuel => VFuel | LErr => VErr v
     | LDone first =>
-      let r := first + (v_row v - v_top v) in
+      let r := clamp_row (first + (v_row v - v_top v)) in
       VOk (single v r (v_col v) first (v_left v))
     end
   | _ => VErr v
@@ -813,17 +816,21 @@ Definition duplicate_sheet (s : state) (i : Z) : result :=
   | DDone l => ROk (push (with_sel (with_sheets s l) (i + 1)) (EDuplicate i (i + 1)))
   end.
 
-(* the diff is pushed before Model::delete_sheet validates *)
+(* Model::delete_sheet first (fails on the only sheet: nothing recorded, nothing changed); then the
+   diff; then the selection: deleting the last sheet selects n-2, otherwise an index that would
+   point past the end moves down by one *)
 Definition delete_sheet (s : state) (i : Z) : result :=
   match get_sheet (sheets s) i with
   | None => RErr s
   | Some sh =>
-    let s1 := push s (EDeleteSheet i (sh_name sh) (sh_vis sh) (sh_geom sh)) in
     let n := nsheets s in
-    let s2 := if (i =? n - 1) && (1 <? n) then with_sel s1 (n - 2) else s1 in
-    match m_delete_sheet (sheets s2) i with
-    | Ok l => ROk (with_sheets s2 l)
-    | _ => RErr s2
+    match m_delete_sheet (sheets s) i with
+    | Ok l =>
+      let s1 := push (with_sheets s l) (EDeleteSheet i (sh_name sh) (sh_vis sh) (sh_geom sh)) in
+      if (i =? n - 1) && (1 <? n) then ROk (with_sel s1 (n - 2))
+      else if (n <=? sel s + 1) && (0 <? sel s) then ROk (with_sel s1 (sel s - 1))
+      else ROk s1
+    | _ => RErr s
     end
   end.
 
@@ -955,8 +962,8 @@ Definition apply_undo (s : state) (e : entry) : result :=
 Definition apply_redo (s : state) (e : entry) : result :=
   match e with
   | EDeleteSheet idx _ _ _ =>
-    lift s (m_delete_sheet (sheets s) idx) (fun s1 =>
-      if 0 <? idx then set_selected_sheet s1 (idx - 1) else ROk s1)
+    (* set_selected_sheet(sheet.saturating_sub(1)) *)
+    lift s (m_delete_sheet (sheets s) idx) (fun s1 => set_selected_sheet s1 (Z.max 0 (idx - 1)))
   | ENewSheet idx name =>
     lift s (m_insert_sheet (sheets s) name idx) (fun s1 => set_selected_sheet s1 idx)
   | EDuplicate src new =>
@@ -1058,40 +1065,15 @@ Definition sel_ok_b (s : state) : bool :=
 Definition all_ok_b (s : state) : bool :=
   (0 <=? sel s) && (sel s <? nsheets s) && forallb (fun sh => view_ok_b (sh_view sh)) (sheets s).
 
-(* ------------------------------------------------------------------ the known defect classes *)
+(* ------------------------------------------------------------------ the known defect classes
+   (the classes of delete_sheet, redo of DeleteSheet, on_page_down and on_page_up disappeared with
+   the repairs 422225e, ccc73d8, 0ee396a of /repo) *)
 
 Definition sel_view (s : state) : option view :=
   match get_sheet (sheets s) (sel s) with Some sh => Some (sh_view sh) | None => None end.
 Definition hull_has (r1 c1 r2 c2 r c : Z) : bool :=
   (Z.min r1 r2 <=? r) && (r <=? Z.max r1 r2) && (Z.min c1 c2 <=? c) && (c <=? Z.max c1 c2).
 
-(* delete_sheet adjusts the selection only when the LAST sheet is deleted: deleting any other
-   sheet while the last one is selected leaves the index one past the end *)
-Definition bad_delete (s : state) (i : Z) : bool :=
-  (0 <=? i) && (i <? nsheets s - 1) && (sel s =? nsheets s - 1).
-(* redo of DeleteSheet selects `sheet - 1` only when sheet > 0 *)
-Definition bad_redo (s : state) : bool :=
-  match redo_st s with
-  | EDeleteSheet idx _ _ _ :: _ => (idx =? 0) && (2 <=? nsheets s) && (sel s =? nsheets s - 1)
-  | _ => false
-  end.
-(* on_page_down / on_page_up keep the distance row - top_row without clamping *)
-Definition bad_page_down (s : state) : bool :=
-  match get_sheet (sheets s) (sel s) with
-  | Some sh => match page_down_view (sh_geom sh) (win_h s) (sh_view sh) with
-               | VOk v' => LAST_ROW <? v_top v' + (v_row (sh_view sh) - v_top (sh_view sh))
-               | _ => false
-               end
-  | None => false
-  end.
-Definition bad_page_up (s : state) : bool :=
-  match get_sheet (sheets s) (sel s) with
-  | Some sh => match page_up_view (sh_geom sh) (win_h s) (sh_view sh) with
-               | VOk v' => v_top v' + (v_row (sh_view sh) - v_top (sh_view sh)) <? 1
-               | _ => false
-               end
-  | None => false
-  end.
 (* on_area_selecting stores the target unvalidated, and anchors the range at its old start
    corner, which need not be the selected cell *)
 Definition bad_area (s : state) (r c : Z) : bool :=
@@ -1110,10 +1092,6 @@ Definition bad_paste (s : state) (h w : Z) : bool :=
 
 Definition bad (s : state) (o : op) : bool :=
   match o with
-  | ODelete i => bad_delete s i
-  | ORedo => bad_redo s
-  | OPageDown => bad_page_down s
-  | OPageUp => bad_page_up s
   | OAreaSel r c => bad_area s r c
   | OPaste h w => bad_paste s h w
   | _ => false
